@@ -58,7 +58,10 @@ GRV_CMD(segapi) {
             std::vector<const gr_slot *> slots;
             for (const gr_slot *s = gr_seg_first_slot(seg); s && slots.size() < 100000; s = gr_slot_next_in_segment(s)) slots.push_back(s);
             const int n = int(slots.size());
-            if (n < N || n != int(gr_seg_n_slots(seg))) { ++skipped; gr_seg_destroy(seg); continue; }
+            if (n < 1 || n != int(gr_seg_n_slots(seg))) { ++skipped; gr_seg_destroy(seg); continue; }
+            // segments shorter than the abstract one cannot be cut the way the behaviour says: they are justified as they
+            // are (every justify call of the behaviour, on the only line)
+            const bool shortseg = n < N;
             ++nseg; ++g_cases;
             std::map<const gr_slot *, int> idof; for (int i = 0; i < n; ++i) idof[slots[i]] = i + 1;
             std::vector<std::vector<int>> lines(1);
@@ -83,6 +86,7 @@ GRV_CMD(segapi) {
             for (auto &o : b["hist"].a) {
                 const std::string op = (*o)["op"].s;
                 if (op == "break") {
+                    if (shortseg) continue;
                     const int s = int((*o)["at"].num());
                     const int real = 1 + ((s - 1) * (n - 1)) / (N - 1);
                     // split the line containing `real`
@@ -97,7 +101,7 @@ GRV_CMD(segapi) {
                     observe(finite, gids, fw, bw);
                     vj::W w; w.str("e", "Break").i("at", real).raw("fw", arr2(fw)).raw("bw", arr2(bw)); fprintf(tr, "%s\n", w.done().c_str());
                 } else {
-                    const int li = int((*o)["line"].num()) - 1;
+                    const int li = shortseg ? 0 : int((*o)["line"].num()) - 1;
                     if (li < 0 || li >= int(lines.size())) continue;
                     const std::vector<int> &ln = lines[li];
                     auto pick = [&](const std::string &w) -> const gr_slot * { if (w == "null") return 0; if (w == "first") return slots[ln.front() - 1]; if (w == "last") return slots[ln.back() - 1]; return slots[ln[ln.size() / 2] - 1]; };
